@@ -237,13 +237,13 @@ fn build_cases(check: &Check) -> Vec<Case> {
         for never in [false, true] {
             for async_path in [false, true] {
                 // quick tier: single files run default/sync and never-transcode/async; pairs run the default on
-                // both paths (the pair with six contexts on the async path only) and never-transcode on sync
+                // both paths (the pair with six contexts only with never-transcode) and never-transcode on sync
                 if quick {
                     let keep = match (kinds.len(), never, async_path) {
                         (1, false, false) | (1, true, true) => true,
                         (1, _, _) => false,
-                        (_, false, false) => expected_contexts(kinds, never).len() < 6,
-                        (_, false, true) | (_, true, false) => true,
+                        (_, false, _) => expected_contexts(kinds, never).len() < 6,
+                        (_, true, false) => true,
                         (_, true, true) => false,
                     };
                     if !keep {
